@@ -90,9 +90,10 @@ fn slippage_verdict_cp(d: [u128; 2], p: [u128; 2], t: u128) -> Spread {
         // a/bb * (1-t) > c/dd  <=>  a*(1-t)*dd > c*bb*1e18
         let lhs = b(a) * one_minus * b(dd);
         let rhs = b(c) * b(bb) * b(ONE18);
-        // band: the contract floors both ratios to 18 decimals
+        // band: the contract floors both ratios (and the product with 1-t) to 18 decimals; a difference of k*1e-18
+        // between the two sides of the inequality is k*bb*dd after cross-multiplication
         let slack = (b(bb) * b(dd)) * b(4);
-        (lhs > rhs + slack * one_minus, lhs + slack * b(ONE18) < rhs)
+        (lhs > rhs + slack, lhs + slack < rhs)
     };
     let (r1, a1) = strict(d[0], d[1], p[0], p[1]);
     let (r2, a2) = strict(d[1], d[0], p[1], p[0]);
@@ -123,13 +124,28 @@ fn slippage_transactions(ev: &mut Evidence) {
             fund(&mut w, a, u, 1u128 << 90);
         }
     }
-    let fees = Fee3::new(ONE18 / 1000, 2 * ONE18 / 1000, ONE18 / 1000);
+    // a high protocol fee and one-directional trading before the deposits, so that the pools owe protocol fees
+    // worth several percent of one reserve: the rule applies to the reserves the pool reports (balance minus owed fees)
+    let fees = Fee3::new(5 * ONE18 / 100, 2 * ONE18 / 1000, ONE18 / 1000);
     let cp = create_pair(&mut w, &hub, [assets[0].clone(), assets[1].clone()], fees.pool(), PairType::ConstantProduct).expect("cp pair");
     pair_provide(&mut w, &cp, ALICE, [1_000_000_000, 2_000_000_000], None, None).expect("cp liquidity");
     let st = create_pair(&mut w, &hub, [assets[1].clone(), assets[2].clone()], fees.pool(), PairType::StableSwap { amp: 100 }).expect("stable pair");
     pair_provide(&mut w, &st, ALICE, [1_000_000_000, 3_000_000_000], None, None).expect("stable liquidity");
     let tr = create_trio(&mut w, &hub, [assets[0].clone(), assets[1].clone(), assets[2].clone()], fees.trio(), 100).expect("trio");
     trio_provide_ordered(&mut w, &tr, ALICE, [1_000_000_000, 2_000_000_000, 4_000_000_000], None, false).expect("trio liquidity");
+    // (explicit 50% max spread next to the loose belief price; failures are tolerated here and show up as a missing
+    // vacuity counter below instead of a crash)
+    let half = Some(dec(ONE18 / 2));
+    for _ in 0..2 {
+        let _ = pair_swap(&mut w, &cp.addr, ALICE, &cp.assets[0], 1_000_000_000, crate::scn_pair::loose_belief(), half, None);
+        let _ = pair_swap(&mut w, &st.addr, ALICE, &st.assets[0], 1_000_000_000, crate::scn_pair::loose_belief(), half, None);
+        let _ = crate::scn_trio::trio_swap(&mut w, &tr, ALICE, 0, 1, 500_000_000, crate::scn_pair::loose_belief(), half);
+    }
+    let fees_owed = {
+        let owed = pair_fees(&w, &cp.addr, false).unwrap_or([0, 0]);
+        let res = pair_pool(&w, &cp.addr).map(|x| x.0).unwrap_or([1, 1]);
+        owed[1] * 50 > res[1]
+    };
     let snap = w.snapshot();
     let tols: Vec<Option<u128>> = vec![None, Some(0), Some(ONE18 / 100), Some(ONE18 / 2), Some(ONE18 - 1), Some(ONE18)];
     // deposit shapes relative to reserves r: proportional, inverse ratio, equal amounts, 0.5% off, one-sided
@@ -152,6 +168,9 @@ fn slippage_transactions(ev: &mut Evidence) {
                 if pool == 0 && !reversed {
                     if let Some(t) = tols[i % tols.len()] {
                         let v = slippage_verdict_cp(d, res, t);
+                        if std::env::var("WWMC_DEBUG").is_ok() {
+                            eprintln!("slippage_tx cp d={:?} res={:?} t={} ok={} verdict={:?} err={:?}", d, res, t, r.is_ok(), v, r.as_ref().err().map(|e| e.msg().to_string()));
+                        }
                         match &r {
                             Ok(_) => {
                                 cx.count("slippage_tx:accepted");
@@ -176,6 +195,9 @@ fn slippage_transactions(ev: &mut Evidence) {
             outcome.push((r.is_ok(), minted));
         }
         cx.count("slippage_tx:order_pairs");
+        if fees_owed {
+            cx.count("slippage_tx:pools_owe_fees");
+        }
         cx.check("slippage.outcome_independent_of_asset_order_in_message", outcome[0] == outcome[1], || {
             format!("pool {} shape {} tolerance {:?}: assets in pool order -> (accepted, minted) = {:?}, in another order -> {:?}", ["cp", "stable", "3pool"][pool], shape, tols[i % tols.len()], outcome[0], outcome[1])
         });
@@ -242,7 +264,7 @@ fn slippage_grid(ev: &mut Evidence) {
                     // pools_total/supply * (1-t) > deposits_total/minted
                     let lhs = (b(p0) + b(p1)) * (b(ONE18) - b(t)) * b(minted);
                     let rhs = (b(d0) + b(d1)) * b(supply) * b(ONE18);
-                    let slack = b(supply) * b(minted) * b(4) * b(ONE18);
+                    let slack = b(supply) * b(minted) * b(4);
                     match res {
                         Ok(()) => cx.check("slippage.accepted_only_within_tolerance", lhs <= rhs + slack, || format!("stable deposit {:?} (mint {}) into {:?} (supply {}) tolerance {} accepted", [d0, d1], minted, [p0, p1], supply, t)),
                         Err(_) => cx.check("slippage.not_rejected_within_tolerance", lhs + slack >= rhs, || format!("stable deposit {:?} (mint {}) into {:?} (supply {}) tolerance {} rejected", [d0, d1], minted, [p0, p1], supply, t)),
@@ -254,7 +276,7 @@ fn slippage_grid(ev: &mut Evidence) {
                 if let Ok(res) = r3 {
                     let lhs = (b(p0) + b(p1) + b(p0)) * (b(ONE18) - b(t)) * b(minted);
                     let rhs = (b(d0) + b(d1) + b(d0)) * b(supply) * b(ONE18);
-                    let slack = b(supply) * b(minted) * b(4) * b(ONE18);
+                    let slack = b(supply) * b(minted) * b(4);
                     match res {
                         Ok(()) => cx.check("slippage.accepted_only_within_tolerance", lhs <= rhs + slack, || format!("3pool deposit tolerance {} accepted outside the bound", t)),
                         Err(_) => cx.check("slippage.not_rejected_within_tolerance", lhs + slack >= rhs, || format!("3pool deposit tolerance {} rejected inside the bound", t)),
@@ -316,7 +338,7 @@ pub fn run(tier: &str, seed: u64) -> i32 {
         ev.add_report(explore(&RouterScn { property: "C15".into(), fees: TYPICAL }, &cfg));
     }
     if ev.violations.is_empty() {
-        for c in ["spread_grid:accepted", "spread_grid:rejected", "slippage_grid:accepted", "slippage_grid:rejected", "probe:spread:accepted", "probe:spread:rejected_for_spread", "probe:minimum_receive:accepted", "probe:minimum_receive:rejected", "slippage_tx:accepted", "slippage_tx:rejected"] {
+        for c in ["spread_grid:accepted", "spread_grid:rejected", "slippage_grid:accepted", "slippage_grid:rejected", "probe:spread:accepted", "probe:spread:rejected_for_spread", "probe:minimum_receive:accepted", "probe:minimum_receive:rejected", "slippage_tx:accepted", "slippage_tx:rejected", "slippage_tx:pools_owe_fees"] {
             ev.require_counter(c, 10);
         }
     }
